@@ -582,6 +582,46 @@ def search_binary(ctx):
     ctx.ob("C20_search_binary", ok, "search", "" if ok else "binary encoder differs from x/|x|")
 
 
+def search_independence(ctx):
+    """two circuits built by the same constructor for different data / sizes are independent
+    objects: building the second must not change what the first prepares (shared gate
+    objects, cached layouts), and executing in any order gives each its own target."""
+    rng = ctx.rng
+    ok = True
+
+    def vec(d, cplx=False):
+        x = np.array([rng.choice([-2., -1., .5, 1., 2., 3.]) for _ in range(d)])
+        if cplx:
+            x = x + 1j * np.array([rng.choice([-1., 0., .5, 2.]) for _ in range(d)])
+        return x
+
+    fams = [
+        ("binary_encoder:hyperspherical", lambda n: 2**n, "E.binary_encoder({x}, 'hyperspherical')", "{x}/np.linalg.norm({x})", (1, 2, 3), True),
+        ("binary_encoder:hopf", lambda n: 2**n, "E.binary_encoder({x}, 'hopf')", "{x}/np.linalg.norm({x})", (1, 2, 3), False),
+        ("unary_encoder:diagonal", lambda n: n, "E.unary_encoder({x}, 'diagonal')", "unary_target({x})", (2, 3, 4), False),
+        ("unary_encoder:tree", lambda n: n, "E.unary_encoder({x}, 'tree')", "unary_target({x})", (2, 4), False),
+        ("hamming_weight_encoder", lambda n: n * (n - 1) // 2, "E.hamming_weight_encoder({x}, NN, 2)", "hw_target({x}, NN, 2)", (3, 4), True),
+        ("phase_encoder", lambda n: n, "E.phase_encoder({x}, 'RY')", None, (2, 3), False),
+    ]
+    for name, dim, ctor, target, sizes, cplx_ok in fams:
+        for n in sizes:
+            for cplx in ([False, True] if cplx_ok else [False]):
+                d = dim(n)
+                a, b = vec(d, cplx), vec(d, cplx)
+                c_ = ctor.replace("NN", str(n))
+                t_ = target.replace("NN", str(n)) if target else None
+                setup = (f"a = {arr_repr(a)}\nb = {arr_repr(b)}\nca = {c_.format(x='a')}\nsa0 = run(ca)\ncb = {c_.format(x='b')}\n"
+                         "sb = run(cb)\nsa = run(ca)\nsb2 = run(cb)\n")
+                tgt = t_.format(x="a") if t_ else "sa0"
+                ok &= check_state(ctx, f"independence:{name}", f"{name}: the circuit built first changes when a second one of the same size is built (data {a.tolist()} then {b.tolist()})",
+                                  "sa", tgt, setup, "C20_search_independence")
+                ok &= check_state(ctx, f"independence:{name}", f"{name}: second circuit / repeated execution", "sb2", "sb", setup, "C20_search_independence")
+    # QFT circuits of different sizes / options built interleaved
+    setup = "q3 = QFT(3)\nq4 = QFT(4, with_swaps=False)\nq3b = QFT(3)\nu = np.asarray(q3.unitary(nb))\nq4.unitary(nb)\n"
+    ok &= check_state(ctx, "independence:QFT", "QFT circuits of different sizes/options built interleaved", "np.asarray(q3b.unitary(nb))", "u", setup, "C20_search_independence")
+    ctx.ob("C20_search_independence", ok, "search", "" if ok else "a constructed circuit depends on other constructions")
+
+
 def search_layers(ctx):
     """entangling_layer: the documented nearest-neighbour patterns (gate pairs only)."""
     E = ns()["E"]
@@ -624,6 +664,7 @@ def run(ctx):
     search_hw(ctx)
     chain_hypotheses(ctx)
     search_binary(ctx)
+    search_independence(ctx)
     search_layers(ctx)
     ctx.notes.append(
         "correspondence: Lean gate-list generators vs the real constructors' queues, verbatim (class, control/target qubits, CU1 exponent, RBS parameter index): "
